@@ -240,12 +240,12 @@ Proof.
     injection H as Hn'. subst n'.
     destruct (strat_update_with_spec _ _ _ _ _ _ _ _ _ _ _ IH Hwk E) as (W & B & V & Nn & Hfi1).
     destruct (strat_write_value_spec _ _ _ _ _ _ _ E0) as (Hv & Hn & Hc & Hfi).
-    destruct (set_kid_weights_spec (g_fi g2) val notl kids1 W B) as (W2 & B2 & V2 & N2 & K2).
+    destruct (set_kid_weights_spec (g_fi g2) (g_value g2) (g_notl g2) kids1 W B) as (W2 & B2 & V2 & N2 & K2).
     destruct (strat_finish_spec _ _ _ _ _ _ _ _ E1) as (Fv & Fn & Fc & Ffi).
     split; constructor; auto.
-    + rewrite Fv, Fc, Hv, Hc, V2. exact V.
-    + rewrite Fn, Hn, N2. exact Nn.
-    + rewrite Ffi, Fv, Fn, Hv, Hn. exact K2.
+    + rewrite V2, Fv, Fc, Hv, Hc. exact V.
+    + rewrite N2, Fn, Hn. exact Nn.
+    + rewrite Ffi, Fv, Fn. exact K2.
 Qed.
 
 End Tree.
